@@ -119,6 +119,13 @@ pub fn run(sim: &Sim, prop: &str, tier: Tier) -> Outcome {
     let ba = Wire::new(kind);
     ab.borrow_mut().policy = schedule_policy(sim, mode, kind);
     ba.borrow_mut().policy = schedule_policy(sim, mode, kind);
+    // swarm (serial port): an OS-buffered port - what a node writes reaches the peer only once
+    // a flush has succeeded
+    if kind == LinkKind::Serial && sim.flag() {
+        ab.borrow_mut().hold_until_flush = true;
+        ba.borrow_mut().hold_until_flush = true;
+        sim.count("serial_output_held_until_flush");
+    }
     // swarm: back-pressure on the transmit side (would-block, partial writes, Interrupted) - a
     // device that delays but never fails; events must still arrive intact
     if sim.chance(30) {
